@@ -88,3 +88,10 @@ def fill(check, NA):
           "recomputed from the documented law, heading constraint, thrust magnitude, roll/pitch rates vs the analytic rotation rate of the thrust axis, Euler's equation, agreement of the two flatness variants",
           "trusted: numpy; yaw rate and angular acceleration of the flatness maps are not judged (not promised)",
           "bounded exhaustive input enumeration with branch-boundary harvesting on the compiled programs", "DESIGN.md section 4 C14")
+
+    check("C15", "model_checking",
+          "BFS over the fed-back memories of the real controller functions: rate-PID integrator for every (i_max, f_cut) setting (to fix-point or the stated state cap), height integrator, velocity-mode set-points (all menu words to "
+          "the depth) with the saturation invariants judged in every reached state against boring clamp / wrap reference models; stick maps on the full 5^4 lattice (affine, bounded); attitude laws on pairs of attitudes "
+          "(both quaternion signs, products, q_r = +-q) against the reference logm of the attitude error",
+          "trusted: numpy; module constants read from the modules; rate-PID state cap 1500 (quick) / 40000 (thorough) reported when hit",
+          "bounded exhaustive exploration: explicit-state BFS over controller memories + alphabet products vs clamp / logm reference models", "DESIGN.md section 4 C15")
